@@ -5,14 +5,14 @@ import json, subprocess
 def conv(typ, what):
     return dict(category="exploration", design="DESIGN.md §2, §3",
       technique="runtime monitoring: reference-model monitor executing the script emitted by the real drc, semantic equivalence + second compare oracle",
-      text=f"Seeded (device, target) pairs for {typ} ({what}) are fed to the real drc; the printed script is executed command by command on an independent device model; the resulting state must be semantically equivalent to the target, a second compare of the dumped model must be empty and 'device unchanged' is only accepted for equivalent devices; a command the model refuses under the rules of C08 and a tool crash on a valid pair count as not converged. PAN-OS and NSX: every 8th pair is a complete live approve against the HTTPS simulator backed by the model; ASA and IOS: every 8th pair is a complete live approve (drc / do-approve) through the CLI simulator backed by the model, judged on the commands the simulator received, followed by a live compare that must be clean. quick 1500 pairs, thorough 40000.",
-      note="Device semantics are those of the model (written from CLI/API documentation, Appendix A of DESIGN.md); the generators cover the edit operations listed in the evidence rule; unmodelled commands make a case inconclusive. Generators were extended after each of eight rounds of seeded changes (DESIGN.md 8.4).")
+      text=f"Seeded (device, target) pairs for {typ} ({what}) are fed to the real drc; the printed script is executed command by command on an independent device model; the resulting state must be semantically equivalent to the target, a second compare of the dumped model (ASA: also printed in device spelling with names for ports, log levels and ICMP types) must be empty and 'device unchanged' is only accepted for equivalent devices; a command the model refuses under the rules of C08 and a tool crash on a valid pair count as not converged. PAN-OS and NSX: every 8th pair is a complete live approve against the HTTPS simulator backed by the model; ASA and IOS: every 8th pair is a complete live approve (drc / do-approve) through the CLI simulator backed by the model, judged on the commands the simulator received, followed by a live compare that must be clean. quick 1500 pairs, thorough 40000.",
+      note="Device semantics are those of the model (written from CLI/API documentation, Appendix A of DESIGN.md); the generators cover the edit operations listed in the evidence rule; unmodelled commands make a case inconclusive. Generators were extended after each of ten rounds of seeded changes (DESIGN.md 8.4).")
 
 CLAIMED = {
  "C20": dict(
    category="exploration", design="DESIGN.md §3 C20",
    technique="runtime monitoring: exit-status/stderr/watchdog oracle over an enumerated input-mutation family run through the real binaries",
-   text="Every member of a deterministic mutation family (word truncations, token delete/dup/swap, indentation, doubled blank / TAB between words, trailing blank / CR, structural JSON/XML damage, garbage files; each text at all four argument positions) derived from all configuration texts of the repository's test data, the valid pairs of all generators plus mutations of some of them, and info-file variants in live sessions of all device types (drc and do-approve, reachable and unreachable device) is executed by the real binaries; thorough enumerates the whole family, quick a seeded sample. A crash site (top repository frame + panic class) not listed in known_findings.json is a violation.",
+   text="Every member of a deterministic mutation family (word truncations, token delete/dup/swap, indentation, doubled blank / TAB between words, trailing blank / CR, structural JSON/XML damage, garbage files, configurations that only exist in the raw / IPv6 part next to an empty main file; each text at all four argument positions) derived from all configuration texts of the repository's test data, the valid pairs of all generators plus mutations of some of them, and info-file variants in live sessions of all device types (drc and do-approve, reachable and unreachable device) is executed by the real binaries; thorough enumerates the whole family, quick a seeded sample. A crash site (top repository frame + panic class) not listed in known_findings.json is a violation.",
    note="Trusted: Go runtime prints 'panic:'/'fatal error:' on crashes; 20 s watchdog re-checked serially with 120 s. Coverage is the enumerated family only, not all byte strings."),
 }
 
@@ -20,7 +20,7 @@ CLAIMED.update({
  "C16": dict(
    category="exploration", design="DESIGN.md §3 C16",
    technique="runtime monitoring: N fresh processes per input, byte comparison of stdout / exit status / WARNING lines",
-   text="Tie-rich hand-built inputs for all five device types (k identical groups, equal crypto peers, multi-option rule differences, many same-kind raw objects, unused raw objects of different kinds sharing one name, a raw ACL referenced by two anchors of different kinds, several NSX gateway policies new at once, several input problems of one kind at once), one pair holding every rule spelling the Linux normaliser rewrites, every file-mode pair of the repository's test data and generated convergence pairs of all five device types are each executed by 16 (quick) / 64 (thorough) fresh drc processes; any difference in script, exit status, WARNING>>> or ERROR>>> lines is a violation.",
+   text="Tie-rich hand-built inputs for all five device types (k identical groups, equal crypto peers, multi-option rule differences, many same-kind raw objects, unused raw objects of different kinds sharing one name, a raw ACL referenced by two anchors of different kinds, several NSX gateway policies new at once, several input problems of one kind at once, ties on the Netspoc side, several users sharing an object), one pair holding every rule spelling the Linux normaliser rewrites, every file-mode pair of the repository's test data and generated convergence pairs of all five device types are each executed by 16 (quick) / 64 (thorough) fresh drc processes; any difference in script, exit status, WARNING>>> or ERROR>>> lines is a violation.",
    note="Go randomises map iteration per range statement; N runs sample the orders, they do not enumerate them. ERROR>>> text and info lines are outside the statement and only recorded as anomalies."),
  "C18": dict(
    category="exploration", design="DESIGN.md §3 C18",
@@ -38,7 +38,7 @@ CLAIMED.update({
  "C19": dict(
    category="fault_enumeration", design="DESIGN.md §3 C19",
    technique="runtime monitoring with fault injection: BASH_ENV DEBUG-trap kill at every simple command of the unmodified newpolicy.sh, SIGKILL while parked in children, concurrent invocations; file-tree monitor after every event",
-   text="For ten commit histories (incl. the digit boundary p9/p10) the real newpolicy.sh is killed at every simple command of its reference run (thorough; quick: every 3rd step of three histories), killed from outside while parked inside git clone / the compiler stub (orphan keeps the lock), raced by 1-3 contenders, disturbed by a good or bad commit pushed while its compiler works, and run in the three-process schedule 'second run holds an open lock file handle when the first finishes, third run arrives while the second works' (the injector can hold the script in front of a chosen command); after every event the monitor checks current absent-or-complete-and-compiling, source of current = the compiled revision, increasing numbers, non-interleaved compiler runs, and that one undisturbed run makes the newest compiling revision current.",
+   text="For ten commit histories (incl. the digit boundary p9/p10) the real newpolicy.sh is killed at every simple command of its reference run (thorough; quick: every 3rd step of three histories), killed (SIGKILL) or signalled (TERM, INT, HUP to the script only) from outside while parked inside git clone / the compiler stub, raced by 1-3 contenders, disturbed by a good or bad commit pushed while its compiler works, and run in the three-process schedule 'second run holds an open lock file handle when the first finishes, third run arrives while the second works' (the injector can hold the script in front of a chosen command); after every event the monitor checks current absent-or-complete-and-compiling, source of current = the compiled revision, increasing numbers, non-interleaved compiler runs, and that one undisturbed run makes the newest compiling revision current.",
    note="Compiler and mail are stubs, sudo branch not taken; kills happen on simple-command boundaries and inside the two long-running children only; liveness is the bounded one-run form."),
 })
 
@@ -51,12 +51,12 @@ CLAIMED.update({
  "C09": dict(
    category="fault_enumeration", design="DESIGN.md §3 C09",
    technique="runtime monitoring with peer fault injection at every dialogue position; transcript + exit status + status/history oracle",
-   text="For 5 device types x {drc, do-approve approve, do-approve compare} x 3 scenarios a fault of every kind (error text, unexpected output, tolerated notice lines followed by an error line, wrong echo, silent exit status, close, stall, death of the ssh client while a prompt is on its way, HTTP 4xx/5xx with and without body, malformed body, status=error, commit/job FAIL) is injected at every ordinal position of the reference dialogue (PAN-OS incl. a two-vsys device, ASA incl. a device that needs session set-up), plus, for IOS, an error at a change command whose echo a reload banner interrupts (4 banner forms x 2:00 / 1:00) and seven write-memory variants (NVRAM question then OK / too large / open failed, too large, no [OK], busy once, busy always); after a delivered fault no later change/save may be sent, exit != 0, status FAILED/DIFF and history END: FAILED (two thirds of the do-approve runs start from the status file of earlier runs); on every run status OK requires no delivered fault, all commands accepted and a confirmed save.",
+   text="For 5 device types x {drc, do-approve approve, do-approve compare} x 3 scenarios a fault of every kind (error text, unexpected output, tolerated notice lines followed by an error line, wrong echo, silent exit status, close, stall, death of the ssh client while a prompt is on its way, HTTP 4xx/5xx with and without body, stall in the middle of a body (who gives up first is recorded), malformed body, status=error, commit/job FAIL) is injected at every ordinal position of the reference dialogue (PAN-OS incl. a two-vsys device, ASA incl. a device that needs session set-up), plus, for IOS, an error at a change command whose echo a reload banner interrupts (4 banner forms x 2:00 / 1:00) and seven write-memory variants (NVRAM question then OK / too large / open failed, too large, no [OK], busy once, busy always); after a delivered fault no later change/save may be sent, exit != 0, status FAILED/DIFF and history END: FAILED (two thirds of the do-approve runs start from the status file of earlier runs); on every run status OK requires no delivered fault, all commands accepted and a confirmed save.",
    note="Output-type faults count only at steps whose answer is a verdict (login, hostname, retrieval, change, guard, save); the second half of a joined line cannot be stopped; dropped HTTP connections stay dead. Quick samples stalls (1 s each) at every 5th position."),
  "C11": dict(
    category="fault_enumeration", design="DESIGN.md §3 C11",
    technique="runtime monitoring: absence of change/save events in the simulator transcript of compare runs, with faults at every position and interlock variants",
-   text="Compare runs (drc -C, do-approve compare) for all device types, 3 scenarios with differences, 5 interlock variants, an ASA whose 'enable' asks to define a new enable password, a PAN-OS candidate configuration holding uncommitted nodes of the login user, drc option sets (no log directory, quiet), other spellings of the compare verb and flag (Compare, COMPARE, --compare, -qC, --compare=true) and a fault of each kind at every dialogue position; the transcript must contain no config-change and no save/commit event, an IOS compare must not enter configuration mode (foreign pending reload whose banner lands inside the configuration listing included), and no file may be copied to the device (scp hook).",
+   text="Compare runs (drc -C, do-approve compare) for all device types, 3 scenarios with differences, 5 interlock variants, an ASA whose 'enable' asks to define a new enable password, an ASA with 'names' enabled, a PAN-OS candidate configuration holding uncommitted nodes of the login user, drc option sets (no log directory, quiet), other spellings of the compare verb and flag (Compare, COMPARE, --compare, -qC, --compare=true) and a fault of each kind at every dialogue position; the transcript must contain no config-change and no save/commit event, an IOS compare must not enter configuration mode (foreign pending reload whose banner lands inside the configuration listing included), and no file may be copied to the device (scp hook).",
    note="State is initial config + accepted change events, so unchanged state equals no accepted change event. ASA terminal width is a session setting."),
 })
 
@@ -64,7 +64,7 @@ CLAIMED.update({
  "C12": dict(
    category="fault_enumeration", design="DESIGN.md §3 C12",
    technique="runtime monitoring with schedule control (build-tag gates, simulator parking, SIGKILL) + porcupine linearizability check of the recorded lock history",
-   text="The product holder (5 kinds, one a manual drc -C without -L) x phase (after-lock, login, config read, mid-apply, save, before status write) x contender (8 spellings/front-ends, two without log directory) x {1,3 contenders} x {release, SIGKILL} on two device types is executed (thorough: all schedules, quick: 1-in-5), holders under GC stress (GOGC=1) and with a connection helper that ignores SIGHUP and outlives the holder by 1.5 s; contenders must exit 1 with 'Approve in progress', open no simulator session and change no status/history/log file while the holder is parked, a later run must get the lock; ungated stress rounds of 8 simultaneous runs check session events for interleaving and the lock history with porcupine.",
+   text="The product holder (5 kinds, one a manual drc -C without -L) x phase (after-lock, login, config read, mid-apply, save, before status write) x contender (8 spellings/front-ends, two without log directory, one whose flock call fails with ENOLCK injected by strace) x {1,3 contenders} x {release, SIGKILL} on two device types is executed (thorough: all schedules, quick: 1-in-5), holders under GC stress (GOGC=1) and with a connection helper that ignores SIGHUP and outlives the holder by 1.5 s; contenders must exit 1 with 'Approve in progress', open no simulator session and change no status/history/log file while the holder is parked, a later run must get the lock; ungated stress rounds of 8 simultaneous runs check session events for interleaving and the lock history with porcupine.",
    note="Crash = SIGKILL; kernel flock semantics are trusted. Gates are the verif-tagged verifhook.Point calls right after SetLock and before status.Set*."),
  "C15": dict(
    category="fault_enumeration", design="DESIGN.md §3 C15",
@@ -74,7 +74,7 @@ CLAIMED.update({
  "C17": dict(
    category="exploration", design="DESIGN.md §3 C17",
    technique="runtime monitoring: byte scan of every file, stdout and stderr written by live runs with unique random secrets, under success and injected failures",
-   text="Live runs for all device types, both front-ends, approve and compare, three secret alphabets, info files with one and two device names, the PAN-OS key also delivered as CDATA, and 'drc -u USER' with the password typed on a pseudo terminal (streams on the terminal or redirected; the terminal display is a scanned sink), success plus failures of every kind at the first 8, one middle and the last 3 dialogue positions, and the death of the ssh client while a password prompt is still on its way; all files below basedir and the log directory, stdout and stderr are scanned for password, API key, xsrf token and session cookie in plain, query-/path-escaped, lower-hex-escaped, unescaped and unpadded spelling.",
+   text="Live runs for all device types, both front-ends, approve and compare, three secret alphabets, info files with one and two device names, the PAN-OS key also delivered as CDATA, and 'drc -u USER' with the password typed on a pseudo terminal (streams on the terminal or redirected; the terminal display is a scanned sink), success plus failures of every kind at the first 8, one middle and the last 3 dialogue positions, and the death of the ssh client while a password prompt is still on its way; all files below basedir and the log directory, stdout and stderr are scanned for password, API key, xsrf token and session cookie in plain, query-/path-escaped, lower-hex-escaped, unescaped and unpadded spelling and for the distinctive tail behind the last separator character of a secret; PAN-OS key also nested in another element of the keygen answer.",
    note="Simulated devices do not echo passwords; device-issued keys are alphanumeric with '=' padding; passwords contain no white space."),
 })
 
@@ -85,11 +85,11 @@ CLAIMED.update({
  "C04": conv("NSX","gateway policies, groups, services, id clashes, foreign objects"),
  "C05": dict(category="exploration", design="DESIGN.md §3 C05",
    technique="runtime monitoring: semantic Linux model loaded with the emitted route commands and iptables-restore file, round trip through kernel spelling, file mode and live",
-   text="Semantic targets (routes, iptables tables/chains/rules) are printed in random documented Netspoc spelling, device states in kernel spelling (ip route show, iptables-save); the emitted commands and restore file are executed on the model, which must equal the target; the model printed in kernel spelling must compare clean (file mode, and for a fraction as full live approve + live compare through the simulator with the scp hook).",
+   text="Semantic targets (routes, iptables tables/chains/rules) are printed in random documented Netspoc spelling, device states in kernel spelling (ip route show, iptables-save); the emitted commands and restore file are executed on the model, which must equal the target; the model printed in kernel spelling must compare clean (file mode, and for a fraction as full live approve + live compare through the simulator with the scp hook). Rulesets include a raw table in a third of the cases and rule comments with '#'.",
    note="Kernel spelling is limited to the option set of the model's printer; both spellings are printed from one semantic value."),
  "C07": dict(category="exploration", design="DESIGN.md §3 C07",
    technique="runtime monitoring: frame monitor on the unmanaged projection of the device model after every executed command",
-   text="Pairs from the convergence generators with an unmanaged layer (ASA/IOS: manual ACLs and groups, interface unknown to Netspoc with bound ACL, unmanaged group-policy, snmp/ntp/logging/aaa-server/policy-map lines, unmanaged VRF routes; PAN-OS: foreign vsys and shared objects; NSX: objects without Netspoc prefix incl. ids that contain the prefix elsewhere, differ in case or extend it; ASA additionally left-over -DRC- objects that hand-made configuration still references over two levels and an unmanaged interface with in/out ACLs and a crypto map) are executed on the models, every 4th PAN-OS/NSX pair and every 8th ASA/IOS pair as a complete live approve against the simulator backed by the model; a delete the model refuses is replayed on a permissive twin and every live write is judged by the id it addresses (attempts count); the unmanaged projection must be identical after every command.",
+   text="Pairs from the convergence generators with an unmanaged layer (ASA/IOS: manual ACLs and groups, interface unknown to Netspoc with bound ACL, unmanaged group-policy, snmp/ntp/logging/aaa-server/policy-map lines, unmanaged VRF routes; PAN-OS: foreign vsys and shared objects; NSX: objects without Netspoc prefix incl. ids that contain the prefix elsewhere, differ in case or extend it; ASA additionally left-over -DRC- objects that hand-made configuration still references over two levels and an unmanaged interface with in/out ACLs, a group with a generated name and a crypto map, a hand-maintained LDAP server group with several hosts; IOS additionally GETVPN crypto maps of type gdoi on managed interfaces) are executed on the models, every 4th PAN-OS/NSX pair and every 8th ASA/IOS pair as a complete live approve against the simulator backed by the model; a delete the model refuses is replayed on a permissive twin and every live write is judged by the id it addresses (attempts count); the unmanaged projection must be identical after every command.",
    note="Unmanaged content is what the generator adds; names carry fixed markers so the projection is exact."),
  "C08": dict(category="exploration", design="DESIGN.md §3 C08",
    technique="runtime monitoring: device models that reject exactly the five rule classes of the statement while executing the emitted script in order",
@@ -104,7 +104,7 @@ CLAIMED.update({
    note="A crash leaves exactly the first k commands applied; PAN-OS prefixes are candidate-config states; Linux iptables load is atomic."),
  "C14": dict(category="exploration", design="DESIGN.md §3 C14",
    technique="runtime monitoring: step monitor evaluating every packet of a small universe against the bound ACLs (and the routed destinations) after every executed script entry",
-   text="(old, new) ACL pairs over a small universe (4 hosts, 2 nets, 2 ports, tcp/udp/ip), related by edits, by several interacting line edits in one ACL, by a block-split construction (new lines of the other action inside one long block plus moved lines) or drawn independently, by an exception entry that is replaced by a wider one further down while the broad entry moves, by a group replacement next to added / removed lines of the other action (ASA), and route-set pairs incl. nested prefixes with one network address are fed to the real drc; the script is executed entry by entry (joined entry = one step) on the ASA/IOS/Linux models; after each step every packet on which old and new agree must get that verdict, every probe address (first, second, last, middle of each prefix) covered by routes before and after must be covered. quick 2400 pairs, thorough 30000.",
+   text="(old, new) ACL pairs over a small universe (4 hosts, 2 nets, 2 ports, tcp/udp/ip), related by edits, by several interacting line edits in one ACL, by a block-split construction (new lines of the other action inside one long block plus moved lines) or drawn independently, by an exception entry that is replaced by a wider one further down while the broad entry moves (or both are deleted behind a really moved line), by a group replacement next to added / removed lines of the other action (ASA), and route-set pairs incl. nested prefixes with one network address are fed to the real drc; the script is executed entry by entry (joined entry = one step) on the ASA/IOS/Linux models; after each step every packet on which old and new agree must get that verdict, every probe address (first, second, last, middle of each prefix) covered by routes before and after must be covered. quick 2400 pairs, thorough 30000.",
    note="Verdict = permit/deny of the first matching entry; an unbound interface counts as a different verdict; every third ASA pair uses object-groups and one mode replaces the group of a textually unchanged line; packets of members that are added or removed in place are not judged (excluded by the statement)."),
 })
 
